@@ -25,8 +25,14 @@ PLAN = dict(
          "call (never a block or the scalar of an earlier one), its consumption must be explained from the offset the call started at, failing calls "
          "must return error and no output and leave nothing behind for the next call; after every healthy key-exchange call the object is driven on "
          "(ConfirmResponder / ConfirmInitiator, confirmation values) against an honest peer computed by ref/sm2kx resp. ref/sm9 for the scalar of "
-         "the LATEST call, a generated ecdh key is used for ECDH and as ephemeral key of SM2MQV, and keys generated earlier are re-read after every "
-         "later call. clause 2 (c12.faults, c12.eof): one case = (entry point, number of rejected blocks first, Read index k, fault kind) resp. "
+         "the LATEST call, a generated ecdh key is used for ECDH and as ephemeral key of SM2MQV. State surviving a FAILED call is also looked for behind the failure: "
+         "for both key exchanges (healthy call Init / Respond, left pending) x (failing call Init / Respond) x (each of the five fault kinds, premature "
+         "end of the source; also two failing calls, refused calls) x (without / with confirmation values; quick: alternating) the honest peer's answer "
+         "to the LAST HEALTHY call is then fed to ConfirmResponder / ConfirmInitiator, with the peer's confirmation value withheld and supplied - "
+         "accept-set: refused (error, no key) or exactly the reference key and confirmations for the scalar that call sampled; and what earlier "
+         "calls returned is used again with the kept object after every failed / refused call and at the end (generated keys re-read, signatures "
+         "checked with the library's verifier under the key object, ciphertexts decrypted with it): the answer must be the one given when the "
+         "call returned. clause 2 (c12.faults, c12.eof): one case = (entry point, number of rejected blocks first, Read index k, fault kind) resp. "
          "(entry point, rejected blocks, stream length L). distinct = distinct class keys (operation/variant/rejected-count/accepted-value class; "
          "operation/skipped-value class; operation/variant/rejected/kind/k; .../eof@L; hist/object/pattern and hist/object/call>call with their modes)",
     jobs=both("c12.fidelity", ["avx2", "noadx", "avx", "purego", "ia32"], shards=(4, 12), floor=1000)
@@ -65,7 +71,10 @@ CLAIM = dict(
          "or failed calls; key objects signing / encrypting / wrapping repeatedly; the generators; one random source shared by consecutive calls) is "
          "taken through sequences of 2..5 calls with different scripted bytes per call: each call's secret is the first in-range block of its own "
          "bytes, never one of an earlier call, the key exchange then completes (key and confirmation values of the reference model) with the scalar "
-         "of the latest call, and earlier generated keys stay unchanged. "
+         "of the latest call. A session left pending by a healthy Init / Respond is finished only after calls on the same object whose source "
+         "failed in every enumerated way: the object may refuse, otherwise key and confirmations are exactly those of the scalar the healthy call "
+         "sampled (nothing derived from 0, a rejected block or bytes of the failed call); earlier generated keys, signatures and ciphertexts keep "
+         "giving the same answer with the kept object after failed calls. "
          "Every Read position of every operation is failed in five ways, and every premature end of stream by byte "
          "offset: the operation must return an error, no output, and must not panic. Fault enumeration for the second clause, exploration of "
          "streams for the first.",
